@@ -90,15 +90,29 @@ def const_case(rng, i):
     consts = []
     lay = GP.Layout(random.Random(i), plain=True)
     lines, prints, sx_consts, sx_stmts = [], [], [], []
+    def lift(e, acc, k):
+        # the same expression over variables holding the literal operands (nothing for the compiler to fold)
+        if e[0] == "lit":
+            name = "q%d_%d" % (k, len(acc)); acc.append((name, e[1], e[2])); return ("var", name)
+        if e[0] == "bin": return ("bin", e[1], lift(e[2], acc, k), lift(e[3], acc, k))
+        if e[0] == "un": return ("un", e[1], lift(e[2], acc, k))
+        if e[0] == "cast": return ("cast", e[1], lift(e[2], acc, k))
+        if e[0] == "paren": return ("paren", lift(e[1], acc, k))
+        return e
     for k in range(rng.randint(1, 6)):
         t = rng.choice(GP.INTS)
         e = g.expr(t, consts, 3)
         name = "K%d" % k
         text = GP.src_expr(e, lay, e[0] != "lit")
         lines.append("const %s: %s = %s;" % (name, t, text))
-        prints.append('\tvar w%d: %s = %s;\n\tprint!(%s, " ", w%d, "\\n");' % (k, t, text, name, k))
+        acc = []
+        le = lift(e, acc, k)
+        ltext = GP.src_expr(le, lay, True)
+        decls = "".join("\tvar %s: %s = %s;\n" % (q, qt, GP.src_expr(("lit", qt, qv), lay, True)) for q, qt, qv in acc)
+        prints.append('\tvar w%d: %s = %s;\n%s\tvar x%d: %s = %s;\n\tprint!(%s, " ", w%d, " ", x%d, " ", %s, "\\n");' % (k, t, text, decls, k, t, ltext, name, k, k, ltext))
         sx_consts.append("(c %s %s %s)" % (name, t, GP.sx_expr(e)))
-        sx_stmts.append("(decl w%d %s %s) (print (var %s) (str 20) (var w%d) (str 0a))" % (k, t, GP.sx_expr(e), name, k))
+        sx_stmts.append("(decl w%d %s %s) %s (decl x%d %s %s) (print (var %s) (str 20) (var w%d) (str 20) (var x%d) (str 20) %s (str 0a))" % (
+            k, t, GP.sx_expr(e), " ".join("(decl %s %s (lit %s %d))" % (q, qt, qt, qv) for q, qt, qv in acc), k, t, GP.sx_expr(le), name, k, k, GP.sx_expr(le)))
         consts.append((name, t))
     # a named constant as array length
     n = rng.randint(0, 8)
@@ -226,8 +240,8 @@ def run(tier):
         ccmp += 1
         for j, line in enumerate(out[:-3]):
             parts = line.split(" ")
-            if len(parts) == 2 and parts[0] != parts[1]:
-                cmism += 1; ck.violation("const-differs-from-var", "a constant and a variable initialised with the same expression differ: %s" % line, src); break
+            if len(parts) == 4 and len(set(parts)) != 1:
+                cmism += 1; ck.violation("const-differs-from-var", "a constant, a variable initialised with the same expression, the expression over variables and the same printed directly differ: %s" % line, src); break
             if mout is not None and j < len(mout) and mout[j] != line:
                 cmism += 1; ck.violation("const-differs-from-semantics", "constant expression evaluates to %s, the source semantics gives %s" % (line, mout[j]), src); break
         counts = out[-2] if len(out) >= 2 else "?"
